@@ -1,7 +1,7 @@
 """Bounds and default limit rules of the point cloud writer (C14)."""
 from mirlib import *
 from proto import *
-from cache_rules import strip_casts, const_val
+from cache_rules import strip_casts, const_val, is_self_field
 from simple_rules import leaf_name, _agg_fields, _assume_option
 
 PCW = "pc_writer::PointCloudWriter::<'a, T>::"
@@ -38,6 +38,26 @@ def name_tests(fn, R=None):
             if callee_of(t).endswith("ne"):
                 tr, fa = fa, tr
             out.append((bi, v, sw, tr, fa))
+    # the same tests spelled `match p.name { RecordName::V => .. }`: a switch on the discriminant of a `.name` place
+    prog = getattr(fn, "program", None)
+    variants = [v["name"] for v in prog.adts["record::RecordName"]["variants"]] if prog is not None and "record::RecordName" in prog.adts else []
+    for bi in fn.cfg():
+        t = fn.blocks[bi]["term"]
+        if t["k"] != "switch" or not variants:
+            continue
+        dl = op_place(t["discr"])
+        d = strip(R.place(dl)) if dl else None
+        if not (d and d[0] == "discr"):
+            continue
+        x = strip(d[1])
+        if not (x[0] == "field" and x[2] == "name"):
+            continue
+        for v, succ in t["targets"]:
+            try:
+                name = variants[int(v)]
+            except (ValueError, IndexError):
+                continue
+            out.append((bi, name, bi, succ, None))
     return out
 
 
@@ -71,11 +91,10 @@ def update_table(ctx, prog, rule):
         # value = values[i].to_x(&p.data_type) with the loop's own i / p
         src_ok = False
         if val[0] == "call" and conv in ("to_f64", "to_i64"):
-            v0, dt = strip(val[2][0]), strip(val[2][1])
-            src_ok = v0[0] == "call" and v0[1].endswith("::index") and strip(v0[2][0]) == ("param", 2) and dt[0] == "field" and dt[2] == "data_type"
-            if src_ok:
-                i_tree, p_tree = strip(v0[2][1]), strip(dt[1])
-                src_ok = i_tree[0] == "field" and p_tree[0] == "field" and i_tree[1] == p_tree[1] and i_tree[2] == "0" and p_tree[2] == "1"
+            import elems
+            ev, ed = elems.elem_of(val[2][0]), elems.elem_of(val[2][1])
+            src_ok = (ev is not None and ed is not None and strip(ev[0]) == ("param", 2) and ev[1] == []
+                      and is_self_field(strip(ed[0]), "prototype") and ed[1] == ["data_type"] and elems.same_position(ev, ed))
         key = guards[0] if len(guards) == 1 else "|".join(guards) or "?"
         got.setdefault(key, {})[kind] = (holder, fld, conv, src_ok)
     n_ok = 0
